@@ -12,7 +12,7 @@ from rexverif.common import CaseResult
 ID = "C17"
 TIERS = {
     "quick": dict(examples=1600, shards=16, timeout_s=900, shrink_s=60),
-    "thorough": dict(examples=50000, shards=16, timeout_s=3600, shrink_s=240),
+    "thorough": dict(examples=400000, shards=16, timeout_s=3600, shrink_s=240),
 }
 RULE = (
     "Hypothesis draws a pytree skeleton (dict/list/dataclass nesting, None leaves, leaf shapes (),(n,),(n,m)), float32 "
